@@ -52,6 +52,7 @@ func (fv *FuncVC) reset() {
 	fv.frameAll = false
 	fv.cardDone = nil
 	fv.allocBoundTerm = ""
+	fv.lockIDs = nil
 	fv.pc = "true"
 	fv.cur = &State{cells: map[*ssa.Alloc]string{}, heaps: map[string]string{}}
 }
@@ -557,7 +558,14 @@ func (fv *FuncVC) atReturn(ret *ssa.Return) {
 	}
 	// lock hygiene: locks held at exit must equal locks held at entry unless stated
 	if h, ok := fv.cur.heaps["LOCK"]; ok && !con.HasLockEnsures() {
-		fv.oblige("lock", "balanced#"+retID, con.Props, eq(h, "LOCK@0"), "locks held at return equal locks held at entry", fv.posStr(ret.Pos()))
+		// for every mutex this function (or a contracted callee) operates on
+		var parts []string
+		for _, id := range fv.lockIDs {
+			parts = append(parts, eq("(select "+h+" "+id+")", "(select LOCK@0 "+id+")"))
+		}
+		if len(parts) > 0 {
+			fv.oblige("lock", "balanced#"+retID, con.Props, and(parts...), "every mutex this function operates on is held at return exactly as at entry", fv.posStr(ret.Pos()))
+		}
 	}
 	if !con.NoCanary {
 		fv.obls = append(fv.obls, &Obligation{Name: fmt.Sprintf("%s#canary#%s", fv.key, retID), Func: fv.key, Kind: "canary", Expect: "sat",
